@@ -92,6 +92,18 @@ class Raw:
         self.a = a * 2
         self.b = b
 
+@dataclass
+class Nd:
+    v: int
+    nxt: Optional["Nd"] = None
+
+def nd_label(n) -> str: return "nd"
+def nd_conv(tp):
+    # a per-call default_conversion under which Nd is not recursive any more
+    from apischema.conversions import Conversion
+    from apischema.conversions.converters import default_serialization
+    return Conversion(nd_label, source=Nd, target=str) if tp is Nd else default_serialization(tp)
+
 def set_kind():
     @dataclass
     class CatLike:
@@ -130,6 +142,7 @@ def ops(ns):
     def setter(obj, attr, value):
         return lambda: setattr(obj, attr, value)
 
+    o["(no change)"] = lambda: None
     o["additional_properties=True"] = setter(S, "additional_properties", True)
     o["aliaser=prefix"] = setter(S, "aliaser", ns["prefix"])
     o["camel_case=True"] = setter(S, "camel_case", True)
@@ -256,7 +269,7 @@ OBS = ["deserialize(Q)", "serialize(Q)", "deserialization_schema(Q)", "serializa
 
 def jobs(prop, tier, seed):
     out = []
-    n_ops = 36
+    n_ops = 37
     for first in range(n_ops):
         for obs in OBS:
             if tier == "quick":
@@ -269,6 +282,12 @@ def jobs(prop, tier, seed):
             # the same history after cache.set_size(): the caches are rebuilt, and the code that
             # imported a cached function by name keeps the replaced one
             out.append(dict(harness="C09", pid=f"op{first}", first=first, obs=obs, length=1 if tier == "quick" else 2, opts={"resized": True}, bounds={}, budget_s=30 if tier == "quick" else 300))
+    # earlier *uses* with other per-call options are part of a history too: the intermediate
+    # observations are made with a per-call default_conversion (under which Nd is flat), the
+    # final one without
+    for first in range(n_ops):
+        out.append(dict(harness="C09", pid=f"op{first}", first=first, obs="serialize(Nd)", length=1, opts={"alt": True}, bounds={}, budget_s=30 if tier == "quick" else 120))
+        out.append(dict(harness="C09", pid=f"op{first}", first=first, obs="serialize(Nd)", length=1, opts={}, bounds={}, budget_s=30 if tier == "quick" else 120))
     return out
 
 
@@ -295,7 +314,7 @@ class Inst:
         self.relax = ()
 
     # ---- one observation; compile concretely, execute on symbolic data
-    def observe(self, data):
+    def observe(self, data, alt=False):
         from crosshair.tracers import NoTracing
 
         from apischema import ValidationError, deserialization_method, serialization_method
@@ -303,13 +322,15 @@ class Inst:
 
         ns = self.ns
         kind = self.obs
-        tp = ns["Raw"] if "(Raw)" in kind else ns["Zoo"] if "(Zoo)" in kind else ns["R"] if "(R)" in kind else ns["Tr"] if "(Tr)" in kind else ns["Pet"] if "(Pet)" in kind else ns["Q"]
+        tp = ns["Nd"] if "(Nd)" in kind else ns["Raw"] if "(Raw)" in kind else ns["Zoo"] if "(Zoo)" in kind else ns["R"] if "(R)" in kind else ns["Tr"] if "(Tr)" in kind else ns["Pet"] if "(Pet)" in kind else ns["Q"]
 
         def compile_():
             try:
                 if kind.startswith("deserialize"):
                     return ("m", deserialization_method(tp))
                 if kind.startswith("serialize"):
+                    if alt:
+                        return ("m", serialization_method(tp, default_conversion=ns["nd_conv"]))
                     return ("m", serialization_method(tp))
                 if kind.startswith("deserialization_schema"):
                     return ("v", dict(deserialization_schema(tp)))
@@ -373,6 +394,8 @@ class Inst:
         if self.obs == "serialize(Zoo)":
             a = ns["ACat"](ctx.int("n"), ctx.int("m")) if ctx.flag("cat") else ns["ADog"](ctx.int("n"), ctx.int("w"))
             return ns["Zoo"](a, ns["ACat"](0, ctx.int("cm")) if ctx.flag("c") else None)
+        if self.obs == "serialize(Nd)":
+            return ns["Nd"](ctx.int("v"), ns["Nd"](ctx.int("w")) if ctx.flag("nxt") else None)
         if self.obs == "deserialize(Tr)":
             kid = ctx.int("kid") if ctx.flag("int") else {"v": ctx.int("kv"), "kids": [ctx.int("kk")] if ctx.flag("deep") else []}
             return {"v": ctx.int("v"), "kids": [kid] if ctx.flag("kid") else []}
@@ -392,7 +415,7 @@ class Inst:
             quiet(self.ops["cache.set_size(64)"])
         for name, obs_before in history:
             if intermediate and obs_before:
-                self.observe(data)
+                self.observe(data, alt=bool(self.job.get("opts", {}).get("alt")))
             quiet(self.ops[name])
         return self.observe(data)
 
